@@ -36,6 +36,9 @@ type GhostDecl struct {
 	Sort Sort
 	Init *Expr
 	Out  bool // ghost result: visible to modular callers through the ret event
+	// Spawned: assignments made inside a goroutine this activation starts stay visible in the
+	// activation: the ghost names a value that goroutine computes (a prophecy of its result)
+	Spawned bool
 }
 
 type Hook struct {
@@ -431,8 +434,13 @@ func LoadContracts(path string) (*Contracts, error) {
 			}
 			fs := strings.Fields(rest[:i])
 			out := false
+			spawned := false
 			if len(fs) == 3 && fs[0] == "out" {
 				out = true
+				fs = fs[1:]
+			}
+			if len(fs) == 3 && fs[0] == "spawned" {
+				spawned = true
 				fs = fs[1:]
 			}
 			if len(fs) != 2 {
@@ -442,7 +450,7 @@ func LoadContracts(path string) (*Contracts, error) {
 			if err != nil {
 				return nil, fail(err)
 			}
-			cur.Ghosts = append(cur.Ghosts, GhostDecl{fs[0], parseSort(fs[1]), e, out})
+			cur.Ghosts = append(cur.Ghosts, GhostDecl{fs[0], parseSort(fs[1]), e, out, spawned})
 		case "tags":
 			cur.Tags = append(cur.Tags, strings.Fields(rest)...)
 		case "flag":
